@@ -918,11 +918,23 @@ def run(ctx):
 
         def work2(a):
             c, i, m = a
-            try:
-                return recover_and_redo(ctx, binp, c, i, m)
-            except Exception:
-                import traceback
-                return traceback.format_exc()
+            # recover_and_redo starts from a fresh copy of the crash snapshot, so a harness process that died (machine
+            # overloaded: its watchdog fires, rc=2) can be repeated from the same state without changing what is
+            # checked; a failure that repeats is reported as before
+            for attempt in (0, 1):
+                try:
+                    return recover_and_redo(ctx, binp, c, i, m)
+                except RuntimeError as ex:
+                    import traceback
+                    tb = traceback.format_exc()
+                    if attempt == 0 and "harness failed on" in str(ex):
+                        shutil.rmtree(c.snaps[i] + "-rec%d%s" % (i, m), ignore_errors=True)
+                        print("[C12] harness process failed on crash state %d (%s); repeating that state once" % (i, m), flush=True)
+                        continue
+                    return tb
+                except Exception:
+                    import traceback
+                    return traceback.format_exc()
         out2 = list(ex.map(work2, jobs))
     for c in results:
         if not isinstance(c, tuple):
